@@ -76,8 +76,17 @@ func drawBoundary(t *rapid.T, label string, withCols bool) bval {
 func drawArgs(t *rapid.T, name string, n int, withCols bool) ([]string, []string) {
 	sqls := make([]string, n)
 	classes := make([]string, n)
+	haveLong := false
 	for i := 0; i < n; i++ {
 		b := drawBoundary(t, fmt.Sprintf("arg%d", i), withCols)
+		// one very long string per call: two of them can legitimately multiply
+		// (REPLACE(long, '', long) is 6 GB)
+		if strings.HasPrefix(b.class, "long") {
+			if haveLong {
+				b = bval{"'abc'", "text"}
+			}
+			haveLong = true
+		}
 		for _, li := range lengthLike[name] {
 			if li == i && (bigClasses[b.class] || strings.HasPrefix(b.class, "col_")) {
 				b = fw.PickU(t, "lensafe", lengthSafe)
@@ -273,6 +282,17 @@ var knownShapes = []knownShape{
 		func(c progCase) bool {
 			return c.Kind == "func" && c.Name == "JSON_VALUE" && argIn(c, 1, "empty", "space", "col_v", "col_s", "col_g")
 		}},
+	{"limit_percent_unclamped_fatal", "LIMIT x PERCENT: the limit computed from the percentage is neither validated nor clamped: x = NaN, or a huge OFFSET (RecordLen+offset overflows), gives int(Ceil(..)) = MinInt64 and RecordSet[:limit] panics (lib/query/view.go View.Limit)",
+		func(c progCase) bool {
+			return c.Kind == "clause" && strings.Contains(c.SQL, "PERCENT") && (argIn(c, 0, "nan", "s_nan") || (strings.Contains(c.SQL, "OFFSET") && anyArgBig(c)))
+		}},
+	{"substring_length_overflow_fatal", "SUBSTRING/SUBSTR(str, pos, len): start + len overflows int for a huge len and runes[start:end] panics (lib/query/function.go substr)",
+		func(c progCase) bool {
+			if c.Kind == "func" && (c.Name == "SUBSTRING" || c.Name == "SUBSTR") && len(c.Args) >= 3 {
+				return bigClasses[c.Args[2]] || strings.HasPrefix(c.Args[2], "col_")
+			}
+			return c.Kind == "clause" && c.Name == "SUBSTRING FROM FOR" && len(c.Args) >= 2 && bigClasses[c.Args[1]]
+		}},
 	{"pad_empty_padstr_fatal", "LPAD/RPAD(str, len, ''): the pad string's length 0 divides the missing length, int(Ceil(+Inf)) is negative and strings.Repeat panics (lib/query/function.go execStringsPadding)",
 		func(c progCase) bool {
 			return c.Kind == "func" && (c.Name == "LPAD" || c.Name == "RPAD") && argIn(c, 2, "empty", "col_v", "col_s", "col_g")
@@ -319,7 +339,9 @@ func genProgOnce(t *rapid.T) progCase {
 			fs := make([]string, n)
 			for i := range fs {
 				fs[i] = args[i]
-				if fw.Pct(t, "joAlias", 70) {
+				// an unaliased field is labelled by its text: `0` followed by `0.5` is the
+				// reported path conflict again
+				if fw.Pct(t, "joAlias", 70) || avoidKnownJsonPathConflict {
 					fs[i] += " AS `" + fw.PickU(t, "joName", nameShapes) + "`"
 				}
 			}
@@ -388,10 +410,6 @@ func genProgOnce(t *rapid.T) progCase {
 		c.Args = []string{b1.class}
 		tmpl := fw.PickU(t, "clause", clauseTemplates)
 		c.Name = tmpl.name
-		if avoidKnownLimitPercentNaN && strings.Contains(tmpl.sql, "%1 PERCENT") && (b1.class == "nan" || b1.class == "s_nan") {
-			b1 = bval{"'Inf'", "s_inf"}
-			c.Args = []string{b1.class}
-		}
 		sql := strings.Replace(tmpl.sql, "%1", b1.sql, -1)
 		if strings.Contains(sql, "%2") {
 			sql = strings.Replace(sql, "%2", b2.sql, -1)
@@ -471,13 +489,6 @@ func genProgOnce(t *rapid.T) progCase {
 	}
 	return c
 }
-
-// Known genuine defect (reported): `LIMIT x PERCENT` with x = NaN (the float
-// or the text 'NaN') computes int(math.Ceil(NaN)) = MinInt64 and slices the
-// record set with it: "Fatal Error: slice bounds out of range" (View.Limit,
-// lib/query/view.go). The generator keeps NaN out of PERCENT so that the search
-// continues; set to false to reproduce (signature limit_percent_nan_fatal).
-const avoidKnownLimitPercentNaN = true
 
 type clauseTmpl struct{ name, sql string }
 
@@ -634,7 +645,7 @@ func checkProg(c progCase) (fw.Outcome, *fw.Violation) {
 			v.Sig = "window_frame_offset_unclamped"
 		}
 		if strings.HasPrefix(v.Sig, "fatal:") && strings.HasSuffix(v.Sig, "@query.(*View).Limit") && strings.Contains(c.SQL, "PERCENT") {
-			v.Sig = "limit_percent_nan_fatal"
+			v.Sig = "limit_percent_unclamped_fatal"
 		}
 		if k := knownShapeOf(c); k != nil && (strings.HasPrefix(v.Sig, "fatal:") || v.Sig == "hang" || v.Sig == "runaway_memory" || strings.HasPrefix(v.Sig, "panic_escaped")) {
 			v.Sig = k.sig
